@@ -219,36 +219,57 @@ Open Scope string_scope.
 Definition write_once_row (r : string * string * string * string) : bool :=
   match r with
   | (k, _, _, d) =>
-      negb (String.eqb k "pkgvar-write") || String.eqb d "ee inside-Once.Do"
+      (* "<where> <name> : <type>": every write to a package-level variable happens inside a sync.Once's Do *)
+      negb (String.eqb k "pkgvar-write") || String.prefix "inside-Once.Do " d
   end.
 Definition no_goroutine_row (r : string * string * string * string) : bool :=
   match r with (k, _, _, _) => negb (String.eqb k "go") end.
 
-(* the package-level variables of the library: reviewed list (types abbreviated by their names) *)
+(* the package-level variables of the library: reviewed list, by package and TYPE (a renamed variable
+   is the same variable; one more variable of a type already listed is one too many) *)
 Definition shared_vars_reviewed : list (string * string) := [
-  ("catalog", "annotationReplacer");     (* *regexp.Regexp: safe for concurrent use *)
-  ("catalog", "exampleMu");              (* lock around the dependency's example builder *)
-  ("directive", "directiveAllowedToDirectiveContext");  (* table, never written *)
-  ("directive", "ee"); ("directive", "eeOnce");          (* keyword table, written inside eeOnce.Do *)
-  ("directive", "ss");                   (* names table, never written *)
-  ("kit", "openAPIMarshalMu");           (* lock around the dependency's OpenAPI marshalling *)
-  ("scanner", "anyType"); ("scanner", "emptyTracer"); ("scanner", "emptyType");
-  ("scanner", "lexemeEventTypeStringMap"); ("scanner", "lexemeTypeStringMap"); ("scanner", "regexType")
+  ("catalog", "*regexp.Regexp");         (* annotationReplacer: safe for concurrent use *)
+  ("catalog", "sync.Mutex");             (* exampleMu: lock around the dependency's example builder *)
+  ("directive", "map[directive.Enumeration]map[directive.Enumeration]struct{}");  (* context table, never written *)
+  ("directive", "map[string]directive.Enumeration"); ("directive", "sync.Once");  (* keyword index, written inside its Once *)
+  ("directive", "[]string");             (* keyword strings, never written *)
+  ("kit", "sync.Mutex");                 (* openAPIMarshalMu: lock around the dependency's OpenAPI marshalling *)
+  ("scanner", "bytes.Bytes"); ("scanner", "bytes.Bytes"); ("scanner", "bytes.Bytes");   (* anyType, emptyType, regexType: never written *)
+  ("scanner", "scanner.emptyIncludeTracer");
+  ("scanner", "map[scanner.LexemeEventType]string"); ("scanner", "map[scanner.LexemeType]string")   (* name tables, never written *)
 ].
 
-Definition var_name (d : string) : string :=
-  match String.index 0 " " d with Some n => String.substring 0 n d | None => d end.
-
-Definition pkgvar_reviewed (r : string * string * string * string) : bool :=
-  match r with
-  | (k, p, _, d) =>
-      negb (String.eqb k "pkgvar") ||
-      existsb (fun v => String.eqb (fst v) p && String.eqb (snd v) (var_name d)) shared_vars_reviewed
+(* the type of a "name : type" row *)
+Fixpoint after_colon (fuel : nat) (d : string) : string :=
+  match fuel with
+  | O => d
+  | S f =>
+      if String.prefix " : " d then String.substring 3 (String.length d - 3) d
+      else match d with
+           | String _ r => after_colon f r
+           | EmptyString => EmptyString
+           end
   end.
+Definition var_type (d : string) : string := after_colon (String.length d) d.
+
+Definition pair_eqb (a b : string * string) : bool := String.eqb (fst a) (fst b) && String.eqb (snd a) (snd b).
+Fixpoint remove_pair (k : string * string) (l : list (string * string)) : option (list (string * string)) :=
+  match l with
+  | [] => None
+  | x :: r => if pair_eqb k x then Some r else match remove_pair k r with Some r' => Some (x :: r') | None => None end
+  end.
+Fixpoint pairs_sub_multiset (cur reviewed : list (string * string)) : bool :=
+  match cur with
+  | [] => true
+  | k :: r => match remove_pair k reviewed with Some rest => pairs_sub_multiset r rest | None => false end
+  end.
+
+Definition pkgvars_now : list (string * string) :=
+  flat_map (fun r => match r with (k, p, _, d) => if String.eqb k "pkgvar" then [(p, var_type d)] else [] end) Inventory.inventory.
 
 Definition shared_state_check : bool :=
   forallb write_once_row Inventory.inventory && forallb no_goroutine_row Inventory.inventory &&
-  forallb pkgvar_reviewed Inventory.inventory.
+  pairs_sub_multiset pkgvars_now shared_vars_reviewed.
 
 Lemma shared_state_check_ok : shared_state_check = true.
 Proof. vm_compute. reflexivity. Qed.
